@@ -151,6 +151,10 @@ func scopeC13() ([]*SrcPkg, map[string]map[string]c13Expect) {
 		expect[iname][m] = c13Expect{Param: u.Name, Field: refExported(u.Name)}
 	}
 	p.add(IfaceCase{Name: iname, Tags: []string{"c13:unnamed"}, Scope: "S-c13"}, fmt.Sprintf("type %s interface{ %s }", iname, strings.Join(ms, "; ")))
+	// the first parameter is named like the source package (or like nothing special) and a later
+	// parameter has a type of the source package: the first name collides with nothing
+	expect["OW0"] = map[string]c13Expect{"M0": {"src", "Src"}, "M1": {"loc2", "Loc2"}, "M2": {"box", "Box"}}
+	p.add(IfaceCase{Name: "OW0", Tags: []string{"c13:own"}, Scope: "S-c13"}, "type OW0 interface{ M0(src int, l Loc, e LocI); M1(loc2 string, _ *Loc) Loc; M2(box int, b Box[Loc]) }")
 	return p.pkgs, expect
 }
 
@@ -166,6 +170,9 @@ func oracleC13(expect map[string]map[string]c13Expect) func(r *Result) []*Violat
 		var out []*Violation
 		mocks := r.Case.mockNames()
 		for i, in := range r.Case.ifaceNames() {
+			if in == "OW0" && !r.Case.Cfg.samePkg() {
+				continue // in another package the source package's qualifier is imported: the name src does collide there
+			}
 			mock := tc.mockNamed(mocks[i])
 			if mock == nil {
 				out = append(out, r.viol("naming: mock type not found", mocks[i]))
@@ -177,7 +184,7 @@ func oracleC13(expect map[string]map[string]c13Expect) func(r *Result) []*Violat
 				if st != nil {
 					for j := 0; j < st.NumFields(); j++ {
 						if f := st.Field(j); f.Name() == mname+"Func" {
-							if sig, ok := f.Type().(*types.Signature); ok && sig.Params().Len() == 1 {
+							if sig, ok := f.Type().(*types.Signature); ok && sig.Params().Len() >= 1 {
 								if got := sig.Params().At(0).Name(); got != exp.Param {
 									out = append(out, r.viol("naming: parameter name in the function field differs from the rule", fmt.Sprintf("%s.%s: got %q want %q", in, mname, got, exp.Param)))
 								}
@@ -188,14 +195,14 @@ func oracleC13(expect map[string]map[string]c13Expect) func(r *Result) []*Violat
 				for j := 0; j < mock.NumMethods(); j++ {
 					m := mock.Method(j)
 					sig := m.Type().(*types.Signature)
-					if m.Name() == mname && sig.Params().Len() == 1 {
+					if m.Name() == mname && sig.Params().Len() >= 1 {
 						if got := sig.Params().At(0).Name(); got != exp.Param {
 							out = append(out, r.viol("naming: parameter name in the method differs from the rule", fmt.Sprintf("%s.%s: got %q want %q", in, mname, got, exp.Param)))
 						}
 					}
 					if m.Name() == mname+"Calls" && sig.Results().Len() == 1 {
 						if sl, ok := sig.Results().At(0).Type().(*types.Slice); ok {
-							if rs, ok := sl.Elem().Underlying().(*types.Struct); ok && rs.NumFields() == 1 {
+							if rs, ok := sl.Elem().Underlying().(*types.Struct); ok && rs.NumFields() >= 1 {
 								if got := rs.Field(0).Name(); got != exp.Field {
 									out = append(out, r.viol("naming: call-record field name differs from the rule", fmt.Sprintf("%s.%s: parameter %q: got field %q want %q", in, mname, exp.Param, got, exp.Field)))
 								}
@@ -500,6 +507,12 @@ func runC20(tier string) int {
 		for _, l := range lists {
 			cases = append(cases, &Case{Dir: sp.Dir, Ifaces: l, Cfg: c, Scope: "S-list"})
 		}
+		if !c.samePkg() {
+			// in another package a mock may be called exactly like its interface
+			for _, l := range [][]string{{"LF:LF"}, {"LF:LF", "LB:FakeB"}, {"LC", "LF:LF"}} {
+				cases = append(cases, &Case{Dir: sp.Dir, Ifaces: l, Cfg: c, Scope: "S-list"})
+			}
+		}
 	}
 	work := workDir()
 	defer cleanup(work)
@@ -615,7 +628,7 @@ func runC14E1(rep *Report, tier string) {
 				mode = t[8:]
 			}
 		}
-		if mode == "plain" || mode == "alias-clash" || mode == "alias-as-first" || tier == "thorough" {
+		if mode == "plain" || mode == "alias-clash" || mode == "alias-as-first" || mode == "alias-same" || tier == "thorough" {
 			pkgs = append(pkgs, p)
 		}
 	}
